@@ -67,9 +67,11 @@ class Observation:
 class Step:
     """Everything a checker may look at for one transition."""
 
-    __slots__ = ("world", "hist", "event", "mstates", "mres", "obs", "explorer")
+    __slots__ = ("world", "hist", "event", "mstates", "mres", "obs", "explorer", "parents", "ctxs")
 
-    def __init__(self, world, hist, event, mstates, mres, obs, explorer):
+    def __init__(self, world, hist, event, mstates, mres, obs, explorer, parents=None, ctxs=None):
+        self.parents = parents or {}
+        self.ctxs = ctxs or {}
         self.world = world
         self.hist = hist  # including ``event``
         self.event = event
@@ -93,7 +95,7 @@ def violation(step: Step, invariant, backend, symptom, detail=None):
 class Explorer:
     def __init__(self, world, *, alphabet, checks, backends=W.BACKENDS, depth=3, model_kw=None,
                  oracle="model", names="list", observe=None, limit_children=None,
-                 expect_polars_accepts=True, probes=None):
+                 expect_polars_accepts=True, probes=None, size=None):
         self.world = world
         self.alphabet = alphabet  # fn(mstate, hist) -> iterable of events
         self.checks = checks  # list of fn(step) -> list of violations
@@ -107,6 +109,8 @@ class Explorer:
         # probes(explorer, hist, mstates) -> events executed once on every accepted state
         # (checked like any other event, never extended)
         self.probes = probes
+        # size(hist) -> what the depth bound counts (default: number of events)
+        self.size = size or (lambda hist: len(hist) - 1)
         self.built = {b: W.build(world, b) for b in backends}
         self.stats = Counter()
         self.outcomes = Counter()
@@ -140,9 +144,7 @@ class Explorer:
         self._dfs(list(root), mstates, ctxs, only_first)
 
     def _dfs(self, hist, mstates, ctxs, only_first=None):
-        if len(hist) - 1 >= self.depth:
-            return
-        events = list(self.alphabet(mstates[-1], hist))
+        events = [ev for ev in self.alphabet(mstates[-1], hist) if self.size(hist + [ev]) <= self.depth]
         for idx, ev in enumerate(events):
             if only_first is not None and idx not in only_first:
                 continue
@@ -228,7 +230,8 @@ class Explorer:
                     else:
                         o.status = "export-exc"
         full = hist + [ev]
-        step = Step(self.world, full, ev, mstates, mres, obs, self)
+        step = Step(self.world, full, ev, mstates, mres, obs, self,
+                    parents={b: c.tables[-1] for b, c in ctxs.items() if c is not None}, ctxs=ctxs)
         vs = self.standard_checks(step)
         for chk in self.checks:
             vs.extend(chk(step))
